@@ -59,7 +59,7 @@ enum Ev {
 
 fn twins(ctx: &mut Ctx) {
     let sub = "twins";
-    let cases = ctx.n(30_000, 700_000);
+    let cases = ctx.n(30_000, 2_800_000);
     let resdefs = standard_resources();
     let res = ResModel { defs: &resdefs };
     for idx in 0..cases {
